@@ -1,1 +1,2 @@
 import Dalek.Props.C15.Sites
+import Dalek.Props.C15.Facts
